@@ -338,3 +338,40 @@ def run(repo: Repo, rep: Report, tier: str) -> None:
         reported = any(isinstance(c, ast.Call) and call_name(c) in ("_error", "error") for b in n.orelse for c in ast.walk(b))
         rep.check(reported, "C06-R15", f"lower_assign_stmt: property write #{i15 + 1} reports a target that is no placed entity", "error on the other arm" if reported else
                   "no else branch: `func make(int x) { return place(\"small-lamp\", x, 0); } Entity l = make(3); l.enable = a > 0;` compiles and the lamp has no condition", las.loc(n))
+
+    # ---------------- R16 --------------------------------------------------------------
+    rep.rule("C06-R16", "what an entity emits is counted once per use: a same-type addition becomes one shared wire only for sources whose node id names the physical producer — a node "
+             "with a combinator of its own, or an alias of an entity whose id is a function of that entity (so the same entity used twice is recognised as a duplicate and "
+             "not merged); an alias with a fresh id per use (`chest.output[\"x\"] + chest.output[\"x\"]`) would put one wire where two values are added")
+    from ..irschema import ladder as _ladder16
+    ssr = repo.func("ExpressionLowerer._is_simple_source_ref")
+    admitted: set[str] = set()
+    for c in [x for x in ast.walk(ssr.node) if isinstance(x, ast.Call) and call_name(x) == "isinstance" and len(x.args) == 2]:
+        t_ = c.args[1]
+        admitted |= {norm(e) for e in (t_.elts if isinstance(t_, ast.Tuple) else [t_])} - {"SignalRef", "int"}
+    rep.floor("C06-R16", "node classes admitted as wire-merge sources", len(admitted), 2)
+    handlers16: dict[str, list] = {}
+    for br in _ladder16(ep.methods["place_ir_operation"], "op"):
+        for cls16 in br.classes:
+            handlers16[cls16] = [c for st in br.node.body for c in calls_in(st)]
+    el16 = repo.cls("ExpressionLowerer")
+    for cls16 in sorted(admitted):
+        hcalls = handlers16.get(cls16, [])
+        hm = [ep.methods[call_name(c)] for c in hcalls if call_name(c) in ep.methods]
+        own = any(any(call_name(k) == "create_and_add_placement" for k in calls_in(m.node)) or
+                  any(call_name(k) == "set_source" and len(k.args) == 2 and norm(k.args[0]) == norm(k.args[1]) for k in calls_in(m.node)) for m in hm)
+        alias = any(any(call_name(k) == "set_source" and len(k.args) == 2 and norm(k.args[0]) != norm(k.args[1]) for k in calls_in(m.node)) for m in hm)
+        if own or not alias:
+            rep.ok("C06-R16", f"{cls16} as a wire-merge source has a producer of its own", "placed as its own entity / junction" if own else "no alias placement", ssr.loc())
+            continue
+        ctor = [(m, k) for m in list(el16.methods.values()) for k in calls_in(m.node, cls16)]
+        det = bool(ctor)
+        why = ""
+        for m, k in ctor:
+            ida = k.args[0] if k.args else kwarg(k, "node_id")
+            t16 = canon(m).text(ida) if ida is not None else ""
+            if "next_id(" in t16 or "entity" not in t16:
+                det = False
+                why = f"{m.short} builds the id `{t16[:60]}`"
+        rep.check(det, "C06-R16", f"{cls16} (an alias of an entity) is identified by the entity in its node id", "id derived from the entity id" if det else
+                  f"{why}: fresh per use, so two reads of one entity look like two producers and are joined on one wire — the value is counted once, not twice", ssr.loc())
